@@ -28,7 +28,7 @@ LEVEL_TEXT = ('every edge of every enumerated vine is compared with the referenc
               'row by row on a complete lattice of its random draws. Tables outside the alphabet are not enumerated.')
 LEVEL_NOTE = ('trusted: float64 generator-based reference (self-tested against mpmath), select_copula (pinned by C11), the '
               'fitted GaussianKDE marginals (C03)')
-RULE = ('whole fits: d=2..5(6) x 6 designs x 3 types x truncations {1,2,d-1}; layer-A complete structures for d=3,4; probe rows '
+RULE = ('whole fits: d=2..5(6) x 7 designs (incl. the exact-zero-tau parity table) + coupled tables x 3 types x truncations {1,2,d-1}; layer-A complete structures for d=3,4; probe rows '
         '= 7 per vine; poisons {nan,0,0.731,-0.9}; sampler lattice 24x24 (thorough 64x64) x start nodes x {fresh, re-fitted}; '
         'distinct_nontrivial counts distinct (vine, edge), (vine, probe row) and (vine, start node, lattice point) comparisons; '
         '`states` counts distinct vines')
@@ -41,14 +41,14 @@ FAM = {0: 'clayton', 1: 'frank', 2: 'gumbel'}
 
 
 def bounds(tier):
-    return {'whole_fit_d': [2, 3, 4, 5] if tier == 'quick' else [2, 3, 4, 5, 6], 'designs': 6, 'probe_rows': 7,
+    return {'whole_fit_d': [2, 3, 4, 5] if tier == 'quick' else [2, 3, 4, 5, 6], 'designs': 7, 'probe_rows': 7,
             'sampler_lattice': 24 if tier == 'quick' else 64}
 
 
 def cases(tier, seed):
     out = []
     for d in ((2, 3, 4, 5) if tier == 'quick' else (2, 3, 4, 5, 6)):
-        for k in range(6):
+        for k in range(7):
             for vt in TYPES:
                 out.append(('fit', d, k, vt, tier))
     for vt in TYPES:
@@ -152,6 +152,13 @@ def flow_check(r, trees, U0, tag, case, sigp):
             sel = select_copula(np.column_stack([a, b]))
             fam = famname(e.name)
             sfam = type(sel).__name__.lower()
+            if not (sfam == fam and abs(sel.theta - e.theta) <= 1e-9 * max(1.0, abs(e.theta))):
+                # "the edge's two input columns" carry no order: Kendall's tau of (b, a) can differ from that of (a, b) by one
+                # ulp, which Frank's tau -> theta solver amplifies to 2e-5 relative near tau = 0 (direct vines hand the
+                # columns over as (R, L))
+                r.tr()
+                sel = select_copula(np.column_stack([b, a]))
+                sfam = type(sel).__name__.lower()
             if not (sfam == fam and abs(sel.theta - e.theta) <= 1e-9 * max(1.0, abs(e.theta))):
                 r.violation(f'{sigp}:flow:pair-copula:level{"1" if k == 1 else "2" if k == 2 else ">=3"}',
                             f'{tag}: edge ({L},{R}|{sorted(D)}) of tree {k} carries {fam}({e.theta!r}) but select_copula on its '
